@@ -14,6 +14,18 @@ from .._utils import value_to_token
 from .generic_value import GenericValue
 
 
+def has_star_expression(node):
+    if isinstance(node, (ast.List, ast.Tuple)):
+        return any(isinstance(e, ast.Starred) for e in node.elts)
+    if isinstance(node, ast.Dict):
+        return any(key is None for key in node.keys)
+    if isinstance(node, ast.Call):
+        return any(isinstance(arg, ast.Starred) for arg in node.args) or any(
+            kw.arg is None for kw in node.keywords
+        )
+    return False
+
+
 class UndecidedValue(GenericValue):
     def __init__(self, old_value, ast_node, context: AdapterContext):
 
@@ -35,6 +47,9 @@ class UndecidedValue(GenericValue):
 
             adapter = get_adapter_type(obj)
             if adapter is not None and hasattr(adapter, "items"):
+                if has_star_expression(node):
+                    # containers with star-expressions are not changed
+                    return
                 for item in adapter.items(obj, node):
                     yield from handle(item.node, item.value)
                 return
